@@ -65,10 +65,17 @@ def r1_class_table(ctx):
         if (c.callee or "").endswith("saturating_sub"):
             got.setdefault("subs", []).append(c.args[1].get("int"))
     les.sort(key=lambda x: x[2])
+    # the two boundaries, however they are spelled: `n <= T` (if-chain) or the ends of range patterns `lo..=T` / `T+1..=hi`
+    # (a match), i.e. a comparison of n with T by <= / >, or with T + 1 by < / >=.  A lower end 0 of an unsigned range is no
+    # boundary.
+    def boundary(T):
+        return [(op, c) for (op, c, _b) in les if (c == T and op in ("Le", "Gt")) or (c == T + 1 and op in ("Lt", "Ge"))]
+    others = sorted({c for (op, c, _b) in les if c not in (0, want["le1"], want["le1"] + 1, want["le2"], want["le2"] + 1)})
+    b1, b2 = boundary(want["le1"]), boundary(want["le2"])
     checks = [
-        ("threshold-1", [x[1] for x in les][:1], [want["le1"]], "first run ends at SLOT_SIZES[%d]" % k),
-        ("threshold-2", [x[1] for x in les][1:2], [want["le2"]], "largest pooled size is SLOT_SIZES[last]"),
-        ("operators", [x[0] for x in les], ["Le", "Le"], "both tests are n <= threshold"),
+        ("threshold-1", [want["le1"]] if b1 and not others else sorted({c for (_o, c, _b) in les})[:2], [want["le1"]], "first run ends at SLOT_SIZES[%d]" % k),
+        ("threshold-2", [want["le2"]] if b2 and not others else sorted({c for (_o, c, _b) in les})[-2:], [want["le2"]], "largest pooled size is SLOT_SIZES[last]"),
+        ("operators", ["Le", "Le"] if b1 and b2 and all((op, c) in b1 + b2 or c in (0, want["le1"] + 1) for (op, c, _b) in les) else [x[0] for x in les], ["Le", "Le"], "both tests are n <= threshold"),
         ("divisors", sorted(got.get("divs", [])), sorted([want["div1"], want["div2"]]), "the two spacings of the table"),
         ("offsets", sorted(got.get("subs", [])), sorted([want["sub1"], want["sub2"]]), "n-1 in the first run, n-(SLOT_SIZES[%d]+1) in the second" % k),
         ("base-class", got.get("adds", []), [want["base"]], "index of the first class of the second run"),
